@@ -4,6 +4,7 @@ import (
 	"context"
 	"errors"
 	"fmt"
+	"math"
 	"runtime"
 	"strconv"
 	"strings"
@@ -11,6 +12,14 @@ import (
 )
 
 const longTimeout = 30 * time.Second // "never times out" for the purposes of a scenario
+
+// longTO: a PushTask timeout that "never fires" for the purposes of a scenario. Where the timeout is not what is
+// being measured its value must not matter, however large: the scenarios cycle through 30 s, 1 h, 24 h and the
+// largest Duration.
+func (en *Engine) longTO() time.Duration {
+	en.toCycle++
+	return [...]time.Duration{longTimeout, time.Hour, 24 * time.Hour, math.MaxInt64, 24 * time.Hour, time.Hour}[en.toCycle%6]
+}
 
 // Configs: laneSize 1-4 x queueSize 0-3.
 func Configs() [][2]int {
@@ -55,7 +64,7 @@ func (en *Engine) workSharing(n, q int, pinLanes []int, k, extra int, oneP bool)
 		defer runtime.GOMAXPROCS(old)
 		en.E.Count("sharing_runs_on_one_P", 1)
 	}
-	r.Start(longTimeout)
+	r.Start(en.longTO())
 	en.sharingBody(r, pinLanes, k, extra, true)
 	en.Shutdown(r, false)
 }
@@ -123,7 +132,7 @@ func (en *Engine) IdleProbe(idle time.Duration, configs [][2]int) {
 			continue
 		}
 		r := en.New(fam, name, c[0], c[1])
-		r.Start(longTimeout)
+		r.Start(en.longTO())
 		runs = append(runs, r)
 	}
 	if d := idle - time.Since(t0); d > 0 {
@@ -176,7 +185,7 @@ func (en *Engine) CancelPoint(n, q int, site, load string, early bool) {
 	if load == "flight" {
 		r.G.Arm("W1", -1)
 	}
-	r.Start(longTimeout)
+	r.Start(en.longTO())
 	k := en.Rng.Intn(n)
 	var pins []*Task
 	ok := true
@@ -353,7 +362,7 @@ func (en *Engine) PendingExact(n, q, k int, oneLane bool) {
 	}
 	r := en.New(fam, name, n, q)
 	defer en.Finish(fam, r)
-	r.Start(longTimeout)
+	r.Start(en.longTO())
 	pins, ok := en.PinAll(r, func(i int) int { return i % n })
 	if !ok {
 		en.Shutdown(r, false)
@@ -403,7 +412,7 @@ func (en *Engine) PanicStorm(n, q int, record bool, rounds int) {
 	r := en.New(fam, name, n, q)
 	r.Record = record
 	defer en.Finish(fam, r)
-	r.Start(longTimeout)
+	r.Start(en.longTO())
 	stop := make(chan struct{})
 	for o := 0; o < 2; o++ {
 		r.aux.Add(1)
@@ -512,7 +521,7 @@ func (en *Engine) CancelInsidePush(n, q, c int, gated bool) {
 	}
 	r := en.New(fam, name, n, q)
 	defer en.Finish(fam, r)
-	r.Start(longTimeout)
+	r.Start(en.longTO())
 	idle(r)
 	t := r.NewTask(gated, 0, false)
 	calls, fired := 0, false
@@ -572,7 +581,7 @@ func (en *Engine) IdleAfterWork(n, q, k int) {
 	}
 	r := en.New(fam, name, n, q)
 	defer en.Finish(fam, r)
-	r.Start(longTimeout)
+	r.Start(en.longTO())
 	pins, ok := en.PinAll(r, func(i int) int { return i % n })
 	if !ok {
 		en.Shutdown(r, false)
@@ -720,7 +729,7 @@ func (en *Engine) PushAfterCancelRoom(n, q, variant int) {
 		c, cancel := context.WithTimeoutCause(context.Background(), 300*time.Microsecond, errAppCause)
 		r.G = NewGateWrapping(en.ST, c, cancel)
 		r.rec("Xb")
-		r.Start(longTimeout)
+		r.Start(en.longTO())
 		<-c.Done()
 		r.rec("Xe")
 	}
@@ -729,7 +738,7 @@ func (en *Engine) PushAfterCancelRoom(n, q, variant int) {
 		r.rec("Xe")
 	}
 	if variant != 7 {
-		r.Start(longTimeout)
+		r.Start(en.longTO())
 	}
 	if !expiredAtNew && variant != 7 {
 		if en.Rng.Bool() {
@@ -799,7 +808,7 @@ func (en *Engine) PanicSequence(n, q int) {
 	}
 	r := en.New(fam, name, n, q)
 	defer en.Finish(fam, r)
-	r.Start(longTimeout)
+	r.Start(en.longTO())
 	lane := en.Rng.Intn(n)
 	for _, kind := range []int{PVString, PVError, PVInt, PVStruct_, PVSlice, PVNilPtr} {
 		t := r.NewPanicTask(kind, false)
@@ -860,7 +869,7 @@ func (en *Engine) PendingBlockedProducer(n, q int) {
 	}
 	r := en.New(fam, name, n, q)
 	defer en.Finish(fam, r)
-	r.Start(longTimeout)
+	r.Start(en.longTO())
 	if _, ok := en.PinAll(r, func(i int) int { return i % n }); !ok {
 		en.Shutdown(r, false)
 		return
@@ -922,7 +931,7 @@ func (en *Engine) BoundAfterPanics(n, q, rounds int) {
 	}
 	r := en.New(fam, name, n, q)
 	defer en.Finish(fam, r)
-	r.Start(longTimeout)
+	r.Start(en.longTO())
 	for round := 0; round < rounds; round++ {
 		shared := make(chan struct{})
 		var ts []*Task
@@ -992,7 +1001,7 @@ func (en *Engine) TaskKinds(n, q, eq int) {
 	}
 	r := en.New(fam, name, n, q)
 	defer en.Finish(fam, r)
-	r.Start(longTimeout)
+	r.Start(en.longTO())
 	var all []*Task
 	push := func(t *Task, lane int) {
 		all = append(all, t)
@@ -1173,7 +1182,7 @@ func (en *Engine) Reentrant(n, q int) {
 	}
 	r := en.New(fam, name, n, q)
 	defer en.Finish(fam, r)
-	r.Start(longTimeout)
+	r.Start(en.longTO())
 	// one parent at a time: a second parent waiting in the same queue goroutine's hands while the first one pushes
 	// from inside Start() would (legitimately) block that push until a worker is free
 	for i := 0; i < 3; i++ {
@@ -1213,7 +1222,7 @@ func (en *Engine) Wide(n int, held []int) {
 	}
 	r := en.New(fam, name, n, 1)
 	defer en.Finish(fam, r)
-	r.Start(longTimeout)
+	r.Start(en.longTO())
 	if _, ok := en.PinAll(r, func(i int) int { return i }); !ok {
 		en.Shutdown(r, false)
 		return
@@ -1256,7 +1265,7 @@ func (en *Engine) DropHandle(n, q int) {
 	}
 	r := en.New(fam, name, n, q)
 	defer en.Finish(fam, r)
-	r.Start(longTimeout)
+	r.Start(en.longTO())
 	pins, ok := en.PinAll(r, func(i int) int { return i % n })
 	for l := 0; l < n && ok; l++ {
 		for j := 0; j <= q; j++ {
@@ -1314,7 +1323,7 @@ func (en *Engine) Volume(n, q, total int) {
 	r := en.New(fam, name, n, q)
 	r.Record = false
 	defer en.Finish(fam, r)
-	r.Start(longTimeout)
+	r.Start(en.longTO())
 	t := &Task{ID: 1, r: r, pv: -1} // one instant task object pushed again and again
 	accepted := 0
 	deadline := time.Now().Add(60 * time.Second)
@@ -1330,5 +1339,184 @@ func (en *Engine) Volume(n, q, total int) {
 	r.G.Cancel(en.ctxErr())
 	if !r.Wait(LiveBound) {
 		r.Violation("wait-did-not-return within %v", LiveBound)
+	}
+}
+
+// ---------------------------------------------------------------- C06/C14: the nil Task
+
+// NilTasks: PushTask accepts a nil Task; for the lane it is a task that panics when started (nil dereference,
+// recovered like any panic). A nil task goes to every lane while all workers are idle (so every queue goroutine and
+// every worker handles one), then ordinary tasks on the same lanes: each accepted one must be started exactly
+// once, every worker must still serve, LastPanic must be that dereference error (= the nil tasks' "panic value").
+func (en *Engine) NilTasks(n, q, rounds int) {
+	const fam = "niltask"
+	name := sname(fam, n, q, rounds)
+	if en.Skip(fam, name) {
+		return
+	}
+	r := en.New(fam, name, n, q)
+	defer en.Finish(fam, r)
+	r.Start(en.longTO())
+	for round := 0; round < rounds; round++ {
+		var nils []*Task
+		for l := 0; l < n; l++ {
+			idle(r)
+			t := r.NewNilTask()
+			nils = append(nils, t)
+			if res := r.Push(t, l); res != "ok" {
+				r.Violation("progress: PushTask(nil, %d) returned %s", l, res)
+			}
+		}
+		// the lane has dealt with them when nothing is pending and LastPanic shows the dereference
+		want := nils[0].pv
+		if !WaitUntil(LiveBound, func() bool { p, lp := r.Status(); return p == 0 && lp == want }) {
+			p, lp := r.Status()
+			r.Violation("nil-task: %d nil tasks accepted (one per lane): PendingTask=%d LastPanic id=%d (want 0 and the nil-dereference panic) after %v", n, p, lp, LiveBound)
+			en.Shutdown(r, false)
+			return
+		}
+		for _, t := range nils {
+			r.MarkNilRan(t)
+		}
+		// ordinary tasks on the same lanes
+		var ts []*Task
+		for l := 0; l < n; l++ {
+			for j := 0; j < 2; j++ {
+				t := r.NewTask(false, 0, false)
+				ts = append(ts, t)
+				if res := r.Push(t, l); res != "ok" {
+					r.Violation("progress: after a nil task on lane %d, PushTask of an ordinary task returned %s (context live)", l, res)
+				}
+			}
+		}
+		for _, t := range ts {
+			if !WaitUntil(LiveBound, func() bool { return r.Finished(t) }) {
+				r.Violation("progress: after nil tasks were accepted on every lane, accepted task %d was not started within %v (context live)", t.ID, LiveBound)
+				en.Shutdown(r, false)
+				return
+			}
+		}
+	}
+	// every worker still serves
+	if _, ok := en.PinAll(r, func(i int) int { return i % n }); !ok {
+		r.Violation("panic-contained: workers lost after nil tasks")
+	}
+	en.Shutdown(r, false)
+}
+
+// ---------------------------------------------------------------- C06/C14: panic(nil)
+
+// PanicNil: every worker runs a task that does panic(nil); afterwards every worker must still serve. With the
+// default runtime setting the lane sees a *runtime.PanicNilError (LastPanic shows it); with GODEBUG=panicnil=1
+// recover() returns nil: for the lane the task returned, LastPanic is untouched (the family is run in both settings).
+func (en *Engine) PanicNil(n, q int) {
+	const fam = "panicnil"
+	name := sname(fam, n, q, PanicNilIsNil)
+	if en.Skip(fam, name) {
+		return
+	}
+	r := en.New(fam, name, n, q)
+	defer en.Finish(fam, r)
+	r.Start(en.longTO())
+	for round := 0; round < 2; round++ {
+		var ts []*Task
+		for l := 0; l < n; l++ {
+			idle(r)
+			t := r.NewPanicNilTask()
+			ts = append(ts, t)
+			if res := r.Push(t, l); res != "ok" {
+				r.Violation("progress: push returned %s", res)
+			}
+		}
+		for _, t := range ts {
+			if !WaitUntil(LiveBound, func() bool { return r.Finished(t) }) {
+				r.Violation("progress: task %d (panic(nil)) pushed after %d rounds of panic(nil) was not started within %v", t.ID, round, LiveBound)
+				en.Shutdown(r, false)
+				return
+			}
+		}
+		if !PanicNilIsNil {
+			want := ts[0].pv
+			if !WaitUntil(LiveBound, func() bool { _, lp := r.Status(); return lp == want }) {
+				r.Violation("lastpanic: tasks did panic(nil) (a *runtime.PanicNilError), LastPanic never showed it")
+			}
+		}
+		var ord []*Task
+		for l := 0; l < n; l++ {
+			t := r.NewTask(false, 0, false)
+			ord = append(ord, t)
+			r.Push(t, l)
+		}
+		for _, t := range ord {
+			if !WaitUntil(LiveBound, func() bool { return r.Finished(t) }) {
+				r.Violation("panic-contained: after panic(nil) on every worker (GODEBUG panicnil=1: %v) accepted task %d was not started within %v", PanicNilIsNil, t.ID, LiveBound)
+				en.Shutdown(r, false)
+				return
+			}
+		}
+	}
+	if _, ok := en.PinAll(r, func(i int) int { return i % n }); !ok {
+		r.Violation("panic-contained: workers lost after panic(nil) (GODEBUG panicnil=1: %v)", PanicNilIsNil)
+	}
+	r.Status()
+	en.Shutdown(r, false)
+}
+
+// ---------------------------------------------------------------- C07: SetTimeout(<= 0 / 1ns) and the end of the context
+
+// PushAfterCancelTimeouts: SetTimeout(0), a negative value or 1 ns ("do not wait for room"); the context ends (gate
+// cancel / expired deadline / timer); then at least 64 PushTask calls onto lanes WITH ROOM, and 16 more after
+// Wait() returned: every one must return the context's error and enqueue nothing (a coin cannot hide in 80 tosses).
+func (en *Engine) PushAfterCancelTimeouts(n, q int, timeout time.Duration, variant int) {
+	const fam = "pushaftercanceltimeout"
+	name := sname(fam, n, q, timeout, variant)
+	if en.Skip(fam, name) {
+		return
+	}
+	r := en.New(fam, name, n, q)
+	defer en.Finish(fam, r)
+	switch variant {
+	case 1:
+		c, cancel := context.WithDeadline(context.Background(), time.Now().Add(-time.Second))
+		r.G = NewGateWrapping(en.ST, c, cancel)
+		r.rec("Xb")
+		r.rec("Xe")
+		r.StartExact(timeout)
+	case 2:
+		c, cancel := context.WithTimeout(context.Background(), 300*time.Microsecond)
+		r.G = NewGateWrapping(en.ST, c, cancel)
+		r.rec("Xb")
+		r.StartExact(timeout)
+		<-c.Done()
+		r.rec("Xe")
+	default:
+		r.StartExact(timeout)
+		// some traffic before the end (results are whatever such a timeout gives: nil or ErrTimeout)
+		for l := 0; l < n; l++ {
+			r.Push(r.NewTask(false, 0, false), l)
+		}
+		WaitUntil(LiveBound, func() bool { p, _ := r.Status(); return p == 0 })
+		r.Cancel(en.ctxErr())
+	}
+	before, _ := r.Status()
+	bad := 0
+	for i := 0; i < 64; i++ {
+		if res := r.Push(r.NewTask(false, 0, false), i%n); res != "ctx" {
+			bad++
+		}
+	}
+	after, _ := r.Status()
+	if bad > 0 || after > before {
+		r.Violation("push-after-cancel: SetTimeout(%v): %d of 64 PushTask calls begun after the context ended (%v) did not return the context's error; PendingTask %d -> %d (lanes with room %d)", timeout, bad, r.G.ErrNow(), before, after, q)
+	}
+	en.Shutdown(r, true)
+	bad = 0
+	for i := 0; i < 16; i++ {
+		if res := r.Push(r.NewTask(false, 0, false), i%n); res != "ctx" {
+			bad++
+		}
+	}
+	if bad > 0 {
+		r.Violation("push-after-cancel: SetTimeout(%v): %d of 16 PushTask calls made after Wait() returned did not return the context's error", timeout, bad)
 	}
 }
